@@ -1,7 +1,7 @@
 #!/bin/bash
 # usage: run_all.sh [tier] [seed]  -- runs every check, prints the verdict lines
 tier=${1:-quick}; seed=${2:-0}
-cd /verif
+cd "$(dirname "$0")"; mkdir -p .work
 for p in C01 C02 C03 C04 C05 C06 C07 C08 C09 C10 C11 C12 C13 C14 C15 C16 C17 C18 C19 C20; do
   VERIF_SEED=$seed /venv/bin/python check.py $p --tier $tier > .work/out_$p.txt 2>&1; rc=$?
   echo "$p rc=$rc $(grep -E '^RESULT' .work/out_$p.txt | cut -c1-160)"
